@@ -42,7 +42,13 @@ type c14Op struct {
 	ChunkID string
 }
 
-type c14Case struct{ Ops []c14Op }
+type c14Case struct {
+	Ops []c14Op
+	// Arena: every payload handed to the Muxer (frame data, blobs) is a plain sub-slice of ONE buffer,
+	// laid out back to back in call order - what a caller gets by slicing a file it has read. A slice's
+	// spare capacity then covers the payloads that follow it; the buffer must come back unchanged.
+	Arena bool
+}
 
 type bsEntry struct {
 	Bitstream []byte
@@ -80,7 +86,7 @@ func bitstreamPool() []bsEntry {
 
 func genC14(t *rapid.T) *c14Case {
 	pool := bitstreamPool()
-	c := &c14Case{}
+	c := &c14Case{Arena: rapid.Bool().Draw(t, "arena")}
 	n := rapid.IntRange(1, 14).Draw(t, "nOps")
 	frames := 0
 	for i := 0; i < n; i++ {
@@ -159,6 +165,24 @@ func clampDur(d int) int {
 
 func checkC14(c *c14Case, o *core.Obs) error {
 	m := mux.NewMuxer()
+	var arena, arenaCopy []byte
+	inArena := func(b []byte) []byte { return b }
+	if c.Arena {
+		total := 0
+		for i := range c.Ops {
+			total += len(c.Ops[i].Bitstream) + len(c.Ops[i].Alph) + len(c.Ops[i].Blob) + 16
+		}
+		arena = make([]byte, 0, total)
+		inArena = func(b []byte) []byte {
+			if b == nil {
+				return nil
+			}
+			at := len(arena)
+			arena = append(arena, b...) // never reallocates: capacity was sized above
+			return arena[at:len(arena)]
+		}
+		defer func() { arenaCopy = nil }()
+	}
 	// model state
 	var frames []c14Frame
 	var meta [3]struct {
@@ -193,6 +217,7 @@ func checkC14(c *c14Case, o *core.Obs) error {
 				}
 				data = append(pre, op.Bitstream...)
 			}
+			data = inArena(data)
 			var fo *mux.FrameOptions
 			if !op.NilOpts {
 				fo = &mux.FrameOptions{Duration: op.Duration, OffsetX: op.OffX, OffsetY: op.OffY}
@@ -251,17 +276,17 @@ func checkC14(c *c14Case, o *core.Obs) error {
 			m.SetBackgroundColor(op.UVal)
 			bg = op.UVal
 		case "icc":
-			m.SetICCProfile(blobOf(op))
+			m.SetICCProfile(inArena(blobOf(op)))
 			meta[0].set, meta[0].data = blobOf(op) != nil, blobOf(op)
 		case "exif":
-			m.SetEXIF(blobOf(op))
+			m.SetEXIF(inArena(blobOf(op)))
 			meta[1].set, meta[1].data = blobOf(op) != nil, blobOf(op)
 		case "xmp":
-			m.SetXMP(blobOf(op))
+			m.SetXMP(inArena(blobOf(op)))
 			meta[2].set, meta[2].data = blobOf(op) != nil, blobOf(op)
 		case "addchunk":
 			id := map[string]mux.ChunkID{"ICCP": mux.FourCCICCP, "EXIF": mux.FourCCEXIF, "XMP ": mux.FourCCXMP}[op.ChunkID]
-			if err := m.AddChunk(id, blobOf(op)); err != nil {
+			if err := m.AddChunk(id, inArena(blobOf(op))); err != nil {
 				return fmt.Errorf("AddChunk(%s): %v", op.ChunkID, err)
 			}
 			k := map[string]int{"ICCP": 0, "EXIF": 1, "XMP ": 2}[op.ChunkID]
@@ -303,8 +328,15 @@ func checkC14(c *c14Case, o *core.Obs) error {
 			anyAlph = true
 		}
 	}
+	arenaCopy = append([]byte(nil), arena...)
 	var buf bytes.Buffer
 	err := m.Assemble(&buf)
+	if c.Arena {
+		o.Label("arena=yes")
+		if !bytes.Equal(arena, arenaCopy) {
+			return fmt.Errorf("Assemble modified the caller's input buffer (first change at byte %d of %d)", firstDiff(arena, arenaCopy), len(arena))
+		}
+	}
 	if err == nil && buf.Len() <= 1<<16 {
 		// injected fault: Assemble on the same state with a writer that fails after k bytes must
 		// report the failure (and, by the rule below, must not have delivered a complete file)
